@@ -2,10 +2,15 @@
 
 package mapping
 
-import "io"
+import (
+	"io"
+
+	"tunnox-core/internal/client/tunnel"
+)
 
 // VerifHandleConnection runs the real per-connection handler synchronously (C17 harness).
 func (h *BaseMappingHandler) VerifHandleConnection(c io.ReadWriteCloser) { h.handleConnection(c) }
 
-// VerifActiveConnCount reads the per-mapping slot counter.
-func (h *BaseMappingHandler) VerifActiveConnCount() int { return int(h.activeConnCount.Load()) }
+// VerifSetTunnelManager replaces the handler's tunnel manager (C17 slot scenarios: a wrapper whose
+// RegisterTunnel is a gate, so that a tunnel can be closed between RegisterTunnel and Start).
+func (h *BaseMappingHandler) VerifSetTunnelManager(m tunnel.TunnelManager) { h.tunnelManager = m }
